@@ -122,7 +122,8 @@ def main(argv):
             samples.append({"plate": f"{nr}x{nc} {labels}", "selector": repr(py), "selected": got, "specified": exp})
     os.remove(info["out"])
     for f in (os.path.join(wd, mod + ".tla"), cfg):
-        os.remove(f)
+        if os.path.exists(f):
+            os.remove(f)
     res = {"instance": tag, "tlc": {k: info[k] for k in ("generated", "distinct", "wall", "cmd")},
            "counts": {"executed": n, "accepted": accepted, "rejected": rejected}, "evaluated": {"C13": n},
            "distinct_states": info["distinct"], "violations": viol,
